@@ -517,11 +517,21 @@ def correspond(ctx, name, cases, hcmd, dcmd, classify, env=None, max_report=4, k
         # only the concatenation fails (state leaking between cases): report as is
         failing = [(all_ops, big)]
     ctx.log(f"{name}: {len(failing)} of {len(cases)} cases FAIL")
-    seen = set()
+    # group by the (coarse) classification of the unshrunk case; groups with a concrete failing
+    # input (oracle / sanitizer / named finding) first; shrink one shortest case per group
+    groups = {}
     for c, r in failing:
+        k0 = tuple(classify(c, r)[0].split(":")[:2])
+        groups.setdefault(k0, []).append((c, r))
+    ctx.cov.setdefault("failing_groups", {})[name] = {":".join(k): len(v) for k, v in groups.items()}
+    ordered = sorted(groups.items(), key=lambda kv: 0 if (kv[0][0] in ("oracle", "crash") or kv[0][0][:1] in ("K", "F")) else 1)
+    seen = set()
+    for k0, lst in ordered[:max_report]:
+        c, r = min(lst, key=lambda cr: len(cr[0]))
         def fails(ops):
-            return not run_case(ctx, hcmd, dcmd, ops, env=env, timeout=60).ok
-        small = shrink_ops(c, fails, keep_prefix=keep_prefix) if len(c) > keep_prefix + 1 else c
+            x = run_case(ctx, hcmd, dcmd, ops, env=env, timeout=60, cmp=cmp)
+            return (not x.ok) and tuple(classify(ops, x)[0].split(":")[:2]) == k0
+        small = shrink_ops(c, fails, keep_prefix=keep_prefix, max_rounds=120) if len(c) > keep_prefix + 1 else c
         rs = run_case(ctx, hcmd, dcmd, small, env=env, timeout=60, cmp=cmp)
         if rs.ok:
             small, rs = c, r
@@ -535,8 +545,7 @@ def correspond(ctx, name, cases, hcmd, dcmd, classify, env=None, max_report=4, k
         replay = {"harness_cmd": hcmd, "driver_cmd": dcmd, "ops": small,
                   "impl_output": rs.impl[-20:], "model_output": rs.model[-20:],
                   "first_diff_line": rs.diff_at, "oracle": rs.oracle[:5],
-                  "crash": rs.crash, "stderr_tail": rs.stderr[-1500:], "env": env or {}}
+                  "crash": rs.crash, "stderr_tail": rs.stderr[-1500:], "env": env or {},
+                  "cases_in_group": len(lst)}
         ctx.violation(key, replay, found_input=found, what=what)
-        if len(seen) >= max_report:
-            break
     return len(failing)
